@@ -1,6 +1,7 @@
 PROPERTY = "C04"
 LEVEL = "proof"
-LEAN_MODULES = ["CifModel.Props.C04", "CifModel.Model.StoreSchema", "CifModel.Model.StoreContract", "CifModel.Props.ReviewC04"]
+LEAN_MODULES = ["CifModel.Props.C04", "CifModel.Model.StoreSchema", "CifModel.Model.StoreContract", "CifModel.Props.ReviewC04",
+                "CifModel.Spec.StoreSpec", "CifModel.Lemmas.StoreSpecWorld", "CifModel.Lemmas.StoreSpecSetValue", "CifModel.Lemmas.StoreSpecProps"]
 REQUIRED = ["CifModel.C04_inv_init", "CifModel.C04_inv_sql", "CifModel.C04_inv_step", "CifModel.C04_inv_reachable",
             "CifModel.C04_inv_gives_loop_keys", "CifModel.names_returned_as_created", "CifModel.set_value_all_packets_or_new_scalar",
             "CifModel.remove_last_item_removes_loop", "CifModel.scalar_category_cannot_be_given",
@@ -8,7 +9,10 @@ REQUIRED = ["CifModel.C04_inv_init", "CifModel.C04_inv_sql", "CifModel.C04_inv_s
             "CifModel.names_returned_as_created_items", "CifModel.set_value_new_item_goes_to_scalar", "CifModel.C04_refines_get_block",
             "CifModel.C04_refines_create_block", "CifModel.C04_refines_all_blocks", "CifModel.C04_refines_get_frame", "CifModel.C04_refines_create_loop", "CifModel.C04_refines_add_packet", "CifModel.C04_add_packet_total", "CifModel.C04_refines_get_value", "CifModel.C04_refines_set_value", "CifModel.C04_refines_remove_item", "CifModel.C04_refines_destroy_loop", "CifModel.C04_refines_set_category", "CifModel.C04_refines_set_value_new", "CifModel.C04_refines_add_item", "CifModel.C04_refines_prune", "CifModel.C04_get_value_column", "CifModel.C04_add_packet_is_spec_packet",
             "CifModel.C04_cex_F30_pinned", "CifModel.C04_cex_F34_pinned",
-            "CifModel.C04_wok_init", "CifModel.C04_wok_step", "CifModel.C04_wok_hist", "CifModel.C04_packets_total", "CifModel.C04_rows_below", "CifModel.C04_iterator_tied", "CifModel.C04_quiet", "CifModel.C04_add_packet_in_contract", "CifModel.C04_set_category_in_contract", "CifModel.C04_get_value_in_wok", "CifModel.C04_remove_item_in_wok", "CifModel.C04_refines", "CifModel.C04_refines_hist", "CifModel.C04_second_get_packets_refused", "CifModel.remove_last_item_sql",
+            "CifModel.C04_wok_init", "CifModel.C04_wok_step", "CifModel.C04_wok_hist", "CifModel.C04_packets_total", "CifModel.C04_rows_below", "CifModel.C04_iterator_tied", "CifModel.C04_quiet", "CifModel.C04_add_packet_in_contract", "CifModel.C04_set_category_in_contract", "CifModel.C04_get_value_in_wok", "CifModel.C04_remove_item_in_wok", "CifModel.C04_refines", "CifModel.C04_refines_hist", "CifModel.C04_refines_from_start", "CifModel.C04_set_value_in_contract",
+            "CifModel.C04_set_value_existing", "CifModel.C04_set_value_cells", "CifModel.C04_set_value_creates_scalar_loop", "CifModel.C04_set_value_joins_scalar_loop",
+            "CifModel.C04_set_value_invalid_name", "CifModel.C04_abs_loop_keys", "CifModel.C04_abs_fresh_loop_num", "CifModel.C04_hist_names_returned_as_created",
+            "CifModel.Store.specStep_refines", "CifModel.Store.setValue_spec", "CifModel.Store.absS_tree", "CifModel.Store.Op.covered_all", "CifModel.C04_second_get_packets_refused", "CifModel.remove_last_item_sql",
             "CifModel.C04_code_set_category", "CifModel.C04_code_add_packet", "CifModel.C04_code_remove_item",
             "CifModel.C04_abs_fuel_suffices", "CifModel.C04_refines_create_frame", "CifModel.C04_create_frame_elsewhere", "CifModel.C04_refines_destroy_container",
             "CifModel.Store.schema_tables_link", "CifModel.Store.schema_triggers_link", "CifModel.Store.schema_sql_link",
@@ -31,32 +35,49 @@ ASSUMPTIONS = [
     "the store's enumeration orders are not fixed by any property: observations are canonical (sorted) dumps",
 ]
 PARTIAL = [
-    "Headline: C04_refines / C04_refines_hist — for every op of an in-contract history (inContract: valid handles, no other work on a CIF while "
-    "an iterator is open on it) started in a world satisfying WOk (C04_wok_init / C04_wok_step: Inv, PacketsTotal, RowsBelowAll, ScalarCount, "
-    "iterators tied, one iterator per CIF, autocommit outside iterators), the API FUNCTION as `step` runs it does to the documented model with "
-    "object identities (absW, Spec/StoreSpec) exactly what specStep says and returns the same code — for 24 of the 31 ops (Op.covered). "
-    "NOT covered by specStep: set_value (only its Db-level pieces: C04_refines_set_value = SET_ALL_VALUES_SQL on an existing item, "
-    "C04_refines_set_value_new = the add_scalar composition body by body) and the six iterator calls (C06 states them on the store model)",
+    "Headline: C04_refines / C04_refines_hist / C04_refines_from_start — for EVERY op (all 31: Op.covered is constantly true, the `covered` "
+    "hypothesis is gone) of an in-contract history (inContract: valid handles, no other work on a CIF while an iterator is open on it, packets "
+    "with distinct keys) started in a world satisfying WOk (C04_wok_init / C04_wok_step: Inv, PacketsTotal, RowsBelowAll, ScalarCount, iterators "
+    "tied, one iterator per CIF, autocommit outside iterators), the API FUNCTION as `step` runs it does to the documented model with object "
+    "identities (absW, Spec/StoreSpec: every CIF as container tree + loops of (category, items, packets); every open iterator as the abstract "
+    "iterator AIter = loop, packets passed, has-current-packet, CIF at creation) exactly what specStep says and returns the same result. "
+    "Newly covered: cif_container_set_value (setValue_spec: existing item = the value in every packet of its loop; new item = joins the scalar "
+    "loop, created when absent, which gets its one packet when it has none; invalid / NULL name; NULL value; failure restores the CIF) and "
+    "cif_loop_get_packets (granted, CIF_EMPTY_LOOP, CIF_INVALID_HANDLE, and the refused second one on a busy CIF), next_packet, update_packet, "
+    "remove_packet, close, abort (composed from the C06 commutation lemmas of Lemmas/StoreIterSpec)",
+    "specSetValue is WRITTEN as the composition the documentation names (find the item's loop as cif_container_get_item_loop does; else find or "
+    "create the scalar loop, add the item as cif_loop_add_item does, add a packet as cif_loop_add_packet does when the loop has none); its "
+    "closed forms are PROVED on the documented model: C04_set_value_existing (+ C04_set_value_cells), C04_set_value_creates_scalar_loop "
+    "(exactly one new loop with exactly one packet), C04_set_value_joins_scalar_loop (exactly one new packet when the scalar loop had none), "
+    "C04_set_value_invalid_name; the last two closed forms take two facts about the documented state as hypotheses (a loop is determined by "
+    "(container, number); the loop number handed out next is unused) — C04_abs_loop_keys / C04_abs_fresh_loop_num prove both for absS of every "
+    "store satisfying Inv",
     "the theorems named C04_refines_<op> / C04_code_<op> are statements about single SQL statements or the transaction BODIES of the functions "
     "(addPacketBody, createLoopBody, Db.setAllValues, …), NOT about the API functions: they are the lemmas C04_refines is composed from and are "
-    "superseded by it for the covered ops; remove_last_item_removes_loop is now about cif_container_remove_item itself "
-    "(the SQL-level fact is remove_last_item_sql)",
+    "superseded by it; remove_last_item_removes_loop is about cif_container_remove_item itself (the SQL-level fact is remove_last_item_sql); "
+    "C04_hist_names_returned_as_created is about the history ops (create_block then get_code)",
     "the contract is stricter than cif.h: any non-iterator call on a CIF with an open iterator is out of contract (cif.h only makes access "
     "to the iterated loop undefined and other modifications 'sensitive to the iterator'), except a further get_packets, which is in contract and "
-    "refused (C04_second_get_packets_refused); handles are valid by STATE (their row exists, cached category current) — the two histories in "
-    "Props/ReviewC04.lean and notes/agents/gF.md that break RowsBelow / PacketsTotal are out of contract at their first op inside the iterator",
-    "the tree-shaped documented model (Spec/DataModel `Cif`, `abs`) is a projection of the identity model; only get_block, create_block, "
-    "get_all_blocks, get_frame, create_frame, destroy_container are stated against it directly (C04_refines_get_block … C04_refines_destroy_container)",
+    "refused (C04_second_get_packets_refused; specItOpenRefused); handles are valid by STATE (their row exists, cached category current) — the two "
+    "histories in Props/ReviewC04.lean and notes/agents/gF.md that break RowsBelow / PacketsTotal are out of contract at their first op inside the "
+    "iterator; cif_pktitr_update_packet with a packet that names a key twice is out of contract (a packet is a map)",
+    "the tree-shaped documented model (Spec/DataModel `Cif`, `abs`) is a projection of the identity model: absS_tree proves (absS d).tree = abs d; "
+    "only get_block, create_block, get_all_blocks, get_frame, create_frame, destroy_container are stated against the tree directly",
     "enumeration ORDER of get_all_blocks / get_all_frames / get_all_loops / get_names: specStep fixes it (table order = creation order), "
     "but the correspondence run compares canonical (sorted) dumps, so order is a model statement only",
     "item-name normalisation is a parameter (C09): the identity model identifies items by the normalised key the caller passes; "
     "the norm-based statements (C04_code_*, C04_add_packet_is_spec_packet) assume names stored normalised (ItemsNormOK)",
     "'interleaved with parsing' (the property text) is carried by nothing here: parsing drives the same API functions (C03/C12's subject)",
+    "correspondence is three-way: the model driver runs specStep beside step on every in-contract history (families store, iter, storefault) and "
+    "prints a marker into its answer when the documented model's prediction (result, every CIF's canonical dump, autocommit, handle liveness) "
+    "differs from the store model's — the executable double check of C04_refines_hist; out-of-contract histories are compared store model vs "
+    "library only",
 ]
 LEVEL_TEXT = ("Proof (partial where stated): an executable relational model of the SQLite-backed store (every function of cif.c/container.c/loop.c/"
               "pktitr.c as the C's sequence of SQL statements and transaction macros) with a machine-checked invariant over ALL API histories "
               "by induction over the op list; schema facts re-extracted from the sources on every run and re-checked by kernel `decide`; "
-              "model and real library compared on ~1500 (quick) / 12000 (thorough) random histories with a dump after every op.")
-LEVEL_NOTE = ("Refinement to the documented data model: one theorem over in-contract histories for 24 of 31 ops (see PARTIAL); both findings of this property (F30, F34) are repaired in /repo. Trusted: Lean kernel, the schema translator, SQLite's enforcement of the schema, "
+              "the documented model with object identities (specStep) refined by the store model for every op of every in-contract history; "
+              "documented model, store model and real library compared on ~1500 (quick) / 12000 (thorough) random histories with a dump after every op.")
+LEVEL_NOTE = ("Refinement to the documented data model: ONE theorem over in-contract histories for all 31 ops (C04_refines_hist, see PARTIAL), checked three-way (documented model = store model = library) on every generated in-contract history; both findings of this property (F30, F34) are repaired in /repo. Trusted: Lean kernel, the schema translator, SQLite's enforcement of the schema, "
               "the executor/generator/oracle.")
 TECHNIQUE = "Lean 4 proof (invariant by induction over API histories) about an executable relational model tied to the sources by translated schema facts and differential execution"
